@@ -29,6 +29,12 @@ def purpose(cid, purp=0):
 BUILD_FLAGS = {1: 'NEED_CAPACITY', 2: 'IS_INTERNAL,NEED_CAPACITY'}
 TARGET = {1: ('www.example.com', 80), 2: ('10.9.9.9', 443)}
 REMAP_IP = {1: '93.184.216.34', 2: '10.9.9.9'}
+REMAP_IP2 = {1: '93.184.216.35', 2: '10.9.9.10'}      # what a second REMAP (e.g. SOURCE=EXIT after a retry) reports
+MAX_REMAPS = {1: 2, 2: 1}
+
+
+def remap_ip(sid, n):
+    return REMAP_IP[sid] if n <= 1 else REMAP_IP2[sid]
 SOURCE = {1: ('127.0.0.1', 40001), 2: ('127.0.0.1', 40002)}
 
 
@@ -67,7 +73,7 @@ def stream_line(sid, state, circ, target, extra=''):
 def tgt(sid, remapped=False):
     h, p = TARGET[sid]
     if remapped:
-        h = REMAP_IP[sid]
+        h = remap_ip(sid, int(remapped))
     return '%s:%d' % (h, p)
 
 
@@ -109,11 +115,11 @@ def enabled(state, maxhops=3):
         src = 'SOURCE_ADDR=%s:%d PURPOSE=USER' % SOURCE[s]
         if cur is None:
             n = dict(strms)
-            n[s] = Strm('NEW', 0, False)
+            n[s] = Strm('NEW', 0, 0)
             out.append(('S%d-NEW' % s, 'STREAM', stream_line(s, 'NEW', 0, tgt(s), src), (circs, n)))
             if s == 2:
                 n = dict(strms)
-                n[s] = Strm('NEWRESOLVE', 0, False)
+                n[s] = Strm('NEWRESOLVE', 0, 0)
                 out.append(('S%d-NEWRESOLVE' % s, 'STREAM', stream_line(s, 'NEWRESOLVE', 0, '%s:0' % TARGET[s][0], 'PURPOSE=DNS_REQUEST'), (circs, n)))
             continue
         if cur.state == 'GONE':
@@ -129,10 +135,12 @@ def enabled(state, maxhops=3):
                     n = dict(strms)
                     n[s] = Strm('SENTCONNECT', c, cur.remapped)
                     out.append(('S%d-SENTCONNECT-%d' % (s, c), 'STREAM', stream_line(s, 'SENTCONNECT', c, tgt(s, cur.remapped)), (circs, n)))
-        if cur.state in ('NEW', 'SENTCONNECT') and not cur.remapped and on >= 0:
-            out.append(('S%d-REMAP' % s, 'STREAM', stream_line(s, 'REMAP', on, tgt(s, True), 'SOURCE=CACHE'), (circs, _set(strms, s, Strm('REMAP', on, True)))))
+        if cur.state in ('NEW', 'SENTCONNECT') and int(cur.remapped) < MAX_REMAPS[s] and on >= 0:
+            nr = int(cur.remapped) + 1
+            out.append(('S%d-REMAP' % s, 'STREAM', stream_line(s, 'REMAP', on, tgt(s, nr), 'SOURCE=CACHE' if nr == 1 else 'SOURCE=EXIT'),
+                        (circs, _set(strms, s, Strm('REMAP', on, nr)))))
         if cur.state in ('SENTCONNECT', 'REMAP') and on > 0 and on in circs:
-            out.append(('S%d-SUCCEEDED' % s, 'STREAM', stream_line(s, 'SUCCEEDED', on, tgt(s, True)),
+            out.append(('S%d-SUCCEEDED' % s, 'STREAM', stream_line(s, 'SUCCEEDED', on, tgt(s, int(cur.remapped) or 1)),
                         (circs, _set(strms, s, Strm('SUCCEEDED', on, cur.remapped)))))
         if on != 0:
             out.append(('S%d-DETACHED' % s, 'STREAM', stream_line(s, 'DETACHED', abs(on), tgt(s, cur.remapped), 'REASON=END REMOTE_REASON=TIMEOUT'),
